@@ -21,8 +21,17 @@ def rz(a):
     return np.array([[np.cos(a), -np.sin(a), 0], [np.sin(a), np.cos(a), 0], [0, 0, 1]])
 
 
-def forward(sc, fc, omega, t, p):
-    """g-vectors (n,3) from detector positions, observed omega (degrees) and grain translation t"""
+def wedge_chi(p):
+    w = np.radians(p["wedge"])
+    c = np.radians(p["chi"])
+    WI = np.array([[np.cos(w), 0, -np.sin(w)], [0, 1, 0], [np.sin(w), 0, np.cos(w)]])
+    CI = np.array([[1, 0, 0], [0, np.cos(c), -np.sin(c)], [0, np.sin(c), np.cos(c)]])
+    return WI @ CI
+
+
+def lab_frame(sc, fc, omega, t, p):
+    """d (n,3): peak position on the detector minus the origin of the grain (translation t rotated by the OBSERVED omega,
+    wedge, chi), lab frame; WC: the wedge / chi matrix"""
     v0 = (np.asarray(sc, float) - p["z_center"]) * p["z_size"]
     v1 = (np.asarray(fc, float) - p["y_center"]) * p["y_size"]
     f0 = p["o11"] * v0 + p["o12"] * v1
@@ -31,22 +40,86 @@ def forward(sc, fc, omega, t, p):
     R = rx(p["tilt_x"]) @ ry(p["tilt_y"]) @ rz(p["tilt_z"])
     xyz = R @ vec
     xyz[0] += p["distance"]
-    w = np.radians(p["wedge"])
-    c = np.radians(p["chi"])
-    WI = np.array([[np.cos(w), 0, -np.sin(w)], [0, 1, 0], [np.sin(w), 0, np.cos(w)]])
-    CI = np.array([[1, 0, 0], [0, np.cos(c), -np.sin(c)], [0, np.sin(c), np.cos(c)]])
-    oms = np.radians(np.asarray(omega, float) * p["omegasign"])
-    n = len(oms)
-    tt = np.asarray(t, float)
-    WC = WI @ CI
-    # Om[i] = rz(oms[i]) for every peak at once (the per-peak loop of the first version, vectorised)
+    WC = wedge_chi(p)
+    o = (omega_matrices(np.asarray(omega, float) * p["omegasign"]) @ np.asarray(t, float)) @ WC.T
+    return xyz.T - o, WC
+
+
+def omega_matrices(om_deg):
+    """rz(om) for every peak at once (the per-peak loop of the first version, vectorised); om in degrees, any range"""
+    oms = np.radians(np.asarray(om_deg, float))
     co, so = np.cos(oms), np.sin(oms)
-    Om = np.zeros((n, 3, 3))
+    Om = np.zeros((len(oms), 3, 3))
     Om[:, 0, 0], Om[:, 0, 1], Om[:, 1, 0], Om[:, 1, 1], Om[:, 2, 2] = co, -so, so, co, 1.0
-    o = (Om @ tt) @ WC.T                       # origin of the grain in the lab frame, per peak
-    d = xyz.T - o
+    return Om
+
+
+def forward(sc, fc, omega, t, p, omega_rot=None):
+    """g-vectors (n,3) from detector positions, observed omega (degrees) and grain translation t.  omega_rot: the
+    rotation angle (degrees, sign already applied) that takes k back to the sample frame when it is not the observed one
+    (omega floated: the grain origin still moves with the observed omega)"""
+    d, WC = lab_frame(sc, fc, omega, t, p)
     k = (d / np.linalg.norm(d, axis=1)[:, None] - np.array([1.0, 0, 0])) / p["wavelength"]
+    Om = omega_matrices(np.asarray(omega, float) * p["omegasign"] if omega_rot is None else omega_rot)
     return np.einsum("nji,nj->ni", Om, k @ WC)          # Om^T (WC^T k)
+
+
+def tth_eta(sc, fc, omega, t, p):
+    """two theta and eta (degrees) of every peak as seen from a grain at translation t: the scattered ray d makes the
+    angle tth with the beam (x); eta is the azimuth of d around the beam, zero along +z, positive towards -y"""
+    d, _ = lab_frame(sc, fc, omega, t, p)
+    tth = np.degrees(np.arctan2(np.hypot(d[:, 1], d[:, 2]), d[:, 0]))
+    eta = np.degrees(np.arctan2(-d[:, 1], d[:, 2]))
+    return tth, eta
+
+
+def bragg_omegas(g, p):
+    """the two rotation angles (degrees, in (-360, 360)) at which the g-vectors g (n,3, sample frame) diffract:
+    k = WC rz(om) g must have k_x = -lambda |g|^2 / 2, i.e. A cos(om) + B sin(om) = C.  Solved here from the formula,
+    independent of transform.uncompute_g_vectors.  Also returns eta (degrees) of each solution; nan = never diffracts."""
+    g = np.asarray(g, float)
+    WC = wedge_chi(p)
+    a, b, cc = WC[0]
+    A = a * g[:, 0] + b * g[:, 1]
+    B = b * g[:, 0] - a * g[:, 1]
+    C = -0.5 * p["wavelength"] * (g * g).sum(axis=1) - cc * g[:, 2]
+    r = np.hypot(A, B)
+    with np.errstate(invalid="ignore", divide="ignore"):
+        q = C / r
+        q[np.abs(q) > 1] = np.nan
+        base, half = np.degrees(np.arctan2(B, A)), np.degrees(np.arccos(q))
+    out = []
+    for om in (base + half, base - half):
+        k = np.einsum("nij,nj->ni", omega_matrices(np.nan_to_num(om)), g) @ WC.T
+        out.append((om, np.degrees(np.arctan2(-k[:, 1], k[:, 2]))))
+    return out
+
+
+def wrap180(x):
+    """x modulo 360 into [-180, 180) (floor modulo: right for every sign of x)"""
+    return np.mod(np.asarray(x, float) + 180.0, 360.0) - 180.0
+
+
+def floated_omega(sc, fc, omega, hkl, ubi, t, p, slop):
+    """what 'omega floated' means (refinegrains docstring / compute_gv): the rotation angle used for a peak is the angle
+    at which the grain (ubi) puts its integer hkl on the Ewald sphere - the solution on the side of the detector the peak
+    was seen on - when that is within slop (degrees, modulo a full turn) of the observed omega x omegasign, else the
+    observed angle moved by slop towards it.  Returns (angle, judged): judged False where the two solutions cannot be
+    told apart by eta (eta within 0.5 degree of 0 / 180) or the reflection does not diffract for this ubi."""
+    g = np.asarray(hkl, float) @ np.linalg.inv(np.asarray(ubi, float)).T
+    (om1, eta1), (om2, eta2) = bragg_omegas(g, p)
+    _, eta_obs = tth_eta(sc, fc, omega, t, p)
+    e1, e2 = np.abs(wrap180(eta1 - eta_obs)), np.abs(wrap180(eta2 - eta_obs))
+    ideal = np.where(e1 <= e2, om1, om2)
+    judged = np.isfinite(om1) & (np.minimum(e1, e2) < 0.5) & (np.maximum(e1, e2) > 1.0) & (np.abs(np.sin(np.radians(eta_obs))) > 0.01)
+    obs = np.asarray(omega, float) * p["omegasign"]
+    err = wrap180(obs - ideal)
+    return obs - np.clip(err, -slop, slop), judged, err
+
+
+def to_range(om, lo):
+    """the same angles presented in the scan range [lo, lo + 360)"""
+    return lo + np.mod(np.asarray(om, float) - lo, 360.0)
 
 
 def hkl_errors(sc, fc, omega, ubi, t, p):
